@@ -637,7 +637,32 @@ def _diag_pos(case, g):
     return np.diag(d), ()
 
 
-_reg(Pred("is_diagonal", _tq(MP, "is_diagonal"), d_diag, _diag_pos, tfs=("none", "perm", "scale", "T", "conj", "adj"), kinds=2))
+def _diag_special(case, g):
+    """kind 2, negative: a sparse non-diagonal matrix - some diagonal slots are zero and there are at most as many non-zero
+    off-diagonal entries as diagonal slots (nilpotent shifts, permutation matrices, diag(1, 0, 3) + one entry).  Counting
+    non-zeros, looking only at one triangle or only next to the diagonal all accept some of these."""
+    n = case["n"]
+    if case["pol"] != "neg" or case["kind"] != 2 or n < 2:
+        return None
+    dt = complex if case["cplx"] else float
+    m = np.zeros((n, n), dtype=dt)
+    d = ent(g, 1, n, case["cplx"], case["src"])[0]
+    d = np.where(d == 0, 1, d)
+    zeros = g.choice(n, size=int(g.integers(1, n + 1)), replace=False)
+    d[zeros] = 0
+    m[np.arange(n), np.arange(n)] = d
+    k = int(g.integers(1, n + 1))
+    off = [(i, j) for i in range(n) for j in range(n) if i != j]
+    for idx in g.choice(len(off), size=min(k, len(off)), replace=False):
+        i, j = off[int(idx)]
+        v = ent(g, 1, 1, case["cplx"], case["src"])[0, 0]
+        m[i, j] = v if abs(v) >= 0.5 else 1.0
+    if case["src"] == "int" and not case["cplx"]:
+        m = m.astype(np.int64)
+    return (m,), False
+
+
+_reg(Pred("is_diagonal", _tq(MP, "is_diagonal"), d_diag, _diag_pos, tfs=("none", "perm", "scale", "T", "conj", "adj"), kinds=3, special=_diag_special))
 
 
 def d_dd(m, strict):
@@ -1219,9 +1244,18 @@ def _tp_build(self, case, g):
         elif case["kind"] == 1:  # one entry negated
             i, j = int(g.integers(0, n)), int(g.integers(0, n))
             m[i, j] = -m[i, j]
-        else:  # two equal rows: zero minors
+        elif case["kind"] == 2:  # two equal rows: zero minors
             i, j = g.choice(n, size=2, replace=False)
             m[i] = m[j]
+        else:
+            # one entry raised (kind 3) or lowered but kept positive (kind 4): only the few minors through that entry
+            # can turn non-positive, and which ones depends on where the entry sits (above / below the diagonal) - a
+            # verdict that skips part of the (row set, column set) grid is exposed by these and by nothing coarser
+            i, j = int(g.integers(0, n)), int(g.integers(0, n))
+            if case["kind"] == 3:
+                m[i, j] += int(g.integers(1, 2 * int(np.abs(m).max()) + 2))
+            else:
+                m[i, j] = max(1, int(m[i, j]) - int(g.integers(1, abs(int(m[i, j])) + 2)))
     if case["rect"] == 1 and n >= 2:
         m = m[: n - 1]
     elif case["rect"] == 2 and n >= 2:
@@ -1268,7 +1302,7 @@ def _tp_call(m, sub):
     return f(m) if sub is None else f(m, sub_sizes=list(sub))
 
 
-_tp = _reg(Pred("is_totally_positive", _tp_call, d_tp, None, tfs=("none", "T", "flip", "dscale"), kinds=3, extra=_tp_extra, pols=("pos", "neg"), nmax=4))
+_tp = _reg(Pred("is_totally_positive", _tp_call, d_tp, None, tfs=("none", "T", "flip", "dscale"), kinds=5, extra=_tp_extra, pols=("pos", "neg"), nmax=4))
 _tp.build = _tp_build.__get__(_tp)
 
 
